@@ -136,11 +136,14 @@ impl Context for CommonContext {
         self.labels.borrow_mut().insert(name, value)
     }
 
+    /// Binds the alias; it may be bound already and then names the new register from here on.
+    /// Returns the register when the name is taken by a symbol of another kind
     fn set_def(&self, name: String, value: Reg8) -> Option<Reg8> {
-        if self.exist(&name) {
-            None
+        if self.get_def(&name).is_none() && self.exist(&name) {
+            Some(value)
         } else {
-            self.defs.borrow_mut().insert(name.to_lowercase(), value)
+            self.defs.borrow_mut().insert(name.to_lowercase(), value);
+            None
         }
     }
 
